@@ -606,3 +606,46 @@ Proof.
   cbn [map sort_keyed stable_sort]. unfold F at 1. rewrite IH. apply insert_key_map.
 Qed.
 End SortKeyed.
+
+(** * Updating the middle of a list (x[i] op= e in a loop) *)
+Lemma norm_index_mid (a b : list val) (x : val) :
+  norm_index (List.length (a ++ x :: b)%list) (Z.of_nat (List.length a)) = Some (List.length a).
+Proof.
+  unfold norm_index. rewrite app_length. cbn [List.length].
+  assert (E1 : (Z.of_nat (List.length a) <? 0)%Z = false) by (apply Z.ltb_ge; lia).
+  assert (E2 : (Z.of_nat (List.length a + S (List.length b)) <=? Z.of_nat (List.length a))%Z = false)
+    by (apply Z.leb_gt; lia).
+  rewrite !E1, E2. cbn [orb]. rewrite Nat2Z.id. reflexivity.
+Qed.
+
+Lemma nth_val_mid (a b : list val) (x : val) : nth_val (a ++ x :: b)%list (List.length a) = Some x.
+Proof. induction a as [|y t IH]; [reflexivity|]. exact IH. Qed.
+
+Lemma set_nth_mid (a b : list val) (x v : val) :
+  set_nth (a ++ x :: b)%list (List.length a) v = Some (a ++ v :: b)%list.
+Proof.
+  induction a as [|y t IH]; [reflexivity|].
+  cbn [app List.length set_nth]. rewrite IH. reflexivity.
+Qed.
+
+(** 1-D float arrays *)
+Definition arr (c : list Q) : val := VA (map VQ c).
+
+Lemma add_int_arr (k : Z) (c : list Q) :
+  binop_val Add (VZ k) (arr c) = Some (arr (map (fun x => (inject_Z k + x)%Q) c)).
+Proof.
+  unfold binop_val, arr. cbn [bc_r]. rewrite map_map.
+  rewrite (map_opt_map_some _ _ (fun x => VQ (inject_Z k + x)%Q)); reflexivity.
+Qed.
+
+Lemma add_arr_arr (a b : list Q) :
+  List.length a = List.length b ->
+  binop_val Add (arr a) (arr b) = Some (arr (map (fun p => (fst p + snd p)%Q) (combine a b))).
+Proof.
+  intros H. unfold binop_val, arr. rewrite !map_length, H, Nat.eqb_refl.
+  assert (E : map_opt (arith2 Add) (combine (map VQ a) (map VQ b)) =
+              Some (map VQ (map (fun p => (fst p + snd p)%Q) (combine a b)))).
+  { clear H. revert b. induction a as [|x t IH]; intros [|y u]; try reflexivity.
+    cbn [map combine map_opt]. rewrite IH. reflexivity. }
+  rewrite E. reflexivity.
+Qed.
